@@ -70,6 +70,12 @@ def build_arg(w, st, j):
         if rid in st.bufs:
             return st.bufs[rid]
         if rid in st.models:
+            if j.get("attr"):          # the caller passes on one of its model's own attributes (plot_graph(model.W))
+                v = getattr(st.models[rid]["obj"], j["attr"], None)
+                if not isinstance(v, np.ndarray):
+                    raise Skip()
+                w.probes["arg.is_an_attribute_of_a_live_model"] += 1
+                return v
             return st.models[rid]["obj"]
         if rid in st.results:
             return st.results[rid]["obj"]
@@ -552,9 +558,14 @@ def all_model_arrays(st):
 
 def h_u_call(w, st, rec):
     name = rec["fn"]
-    site = ("generators." + name[4:]) if name.startswith("gen.") else "utils." + name
-    mod = w.sempler.generators if name.startswith("gen.") else w.sempler.utils
-    f = getattr(mod, name[4:] if name.startswith("gen.") else name)
+    if name.startswith("plot."):
+        from . import boot
+        site, f = name, getattr(boot.plot_module(), name[5:])
+        w.probes["display.plotting_call"] += 1
+    else:
+        site = ("generators." + name[4:]) if name.startswith("gen.") else "utils." + name
+        mod = w.sempler.generators if name.startswith("gen.") else w.sempler.utils
+        f = getattr(mod, name[4:] if name.startswith("gen.") else name)
     args = [build_arg(w, st, a) for a in rec["args"]]
     if rec.get("same_object"):
         i0, i1 = rec["same_object"]
@@ -991,6 +1002,8 @@ def op_site(st, rec):
         m = st.models.get(rec["m"])
         return method_site(m["type"], rec["method"]) if m else "?"
     if op == "u.call":
+        if rec["fn"].startswith("plot."):
+            return rec["fn"]
         return ("generators." + rec["fn"][4:]) if rec["fn"].startswith("gen.") else "utils." + rec["fn"]
     return op
 
@@ -1614,6 +1627,7 @@ def generate(run_seed, deep=False):
     G.bitgen_variation(st["bitgen"], ops)
     np_star_faults(st["np_star"], ops)
     giant_samples(st["giant"], gs, ops, nclients)
+    plot_calls(st["plot"], gs, ops, nclients)
     G.printoptions_variation(st["printoptions"], ops, at_start_only=True)
     hash_twins(st["hashtwin"], gs, ops)
     f = st["errstate"]
@@ -1675,6 +1689,33 @@ def giant_samples(f, gs, ops, nclients):
         ops.append({"c": c, "op": "m.call", "m": mid, "method": "sample", "args": dict(args), "seed": None,
                     "keep": "giant%d" % i, "giant": True})
     ops.append({"c": c, "op": "m.call", "m": mid, "method": "sample", "args": dict(args, n=2), "seed": None})
+
+
+def plot_calls(f, gs, ops, nclients):
+    """The application looks at its graphs and matrices (sempler.plot, against the simulated display): in one run in
+    eight, 1-3 plotting calls are put into the finished history, some of them on a matrix that is an attribute of a
+    live model, some with the display failing at the k-th request or dying in a numpy call, some swept, some repeated
+    later.  Decided by a stream of its own after generation, like the np.* faults."""
+    if f.random() >= 0.125 or len(ops) < 4:
+        return
+    models = [(mid, m["type"], m.get("p")) for mid, m in sorted(gs.models.items())
+              if m.get("type") in U.MODEL_MATRIX and not m.get("derived")]
+    for _ in range(f.choice([1, 1, 2, 3])):
+        rec = U.gen_plot_call(f, models)
+        rec["c"] = f.randrange(nclients)
+        r = f.random()
+        if r < 0.25:
+            rec["sweep"] = True
+        elif r < 0.4:
+            rec["arm"] = ["display.*", f.randint(1, 4), "RuntimeError"]
+        elif r < 0.5:
+            rec["arm"] = ["np.*", f.randint(1, 6), f.choice(["MemoryError", "KeyboardInterrupt"])]
+        pos = f.randint(3, len(ops))
+        ops.insert(pos, rec)
+        if f.random() < 0.5:
+            again = {k: v for k, v in copy.deepcopy(rec).items() if k not in ("arm", "sweep")}
+            again["c"] = f.randrange(nclients)
+            ops.insert(f.randint(pos + 1, len(ops)), again)
 
 
 def np_star_faults(f, ops):
@@ -1815,7 +1856,8 @@ ASSUMPTIONS = [
     "underscore attributes may change (lazy private caches are legal); their effects are caught by the result oracles",
     "floating-point results are compared bitwise first and with rtol 1e-9 as the reporting threshold",
     "p <= 7, n <= 15, histories <= 72 operations; call-level histories with exceptions as the only interruptions",
-    "sempler.plot is not exercised (matplotlib is not installed)",
+    "sempler.plot runs against a simulated display (matplotlib and networkx's drawing functions are stubs that record "
+    "requests and can fail); only argument / model / process-state integrity is checked for it, not what is drawn",
     "a clean batch is evidence over the sampled histories, not a proof",
 ]
 
@@ -1835,7 +1877,7 @@ REQUIRED_PROBES = ["iv.do.non_source", "iv.shift.non_source", "iv.noise.non_sour
                    "utils.unseeded_call",
                    "nd.check_valid"]
 
-REQUIRED_PROBES = REQUIRED_PROBES + ["sweep.call_repeated_after_the_failures", "call.after_its_hash_twin(-1 / -2)", "thread.calls_outside_main_thread", "fault.died_in_a_numpy_call(np.*)", "sweep.np_star", "sample.giant(>=2**20 values)"]
+REQUIRED_PROBES = REQUIRED_PROBES + ["sweep.call_repeated_after_the_failures", "call.after_its_hash_twin(-1 / -2)", "thread.calls_outside_main_thread", "fault.died_in_a_numpy_call(np.*)", "sweep.np_star", "sample.giant(>=2**20 values)", "display.plotting_call", "display.request_failed", "arg.is_an_attribute_of_a_live_model"]
 
 
 def simplify(op):
